@@ -210,14 +210,20 @@ func (s *store) persistBlobSize(key string, sizeBytes uint64) error {
 	return nil
 }
 
+// exceedsCapacity reports whether reserving `space` more bytes would breach the capacity.
+// It must not be computed as s.size+space, which wraps around for very large `space`.
+func (s *store) exceedsCapacity(space uint64) bool {
+	return space > s.capacity || s.size > s.capacity-space
+}
+
 func (s *store) ensureFreeSpace(space uint64) error {
-	if s.size+space <= s.capacity {
+	if !s.exceedsCapacity(space) {
 		return nil
 	}
 
 	// TODO - benchmark and consider whether async eviction makes more sense.
 	startTime := time.Now()
-	for s.size+space > s.capacity {
+	for s.exceedsCapacity(space) {
 		if s.evictQueue.Len() == 0 {
 			s.log.With(
 				"unevictable_bytes", s.size,
